@@ -79,6 +79,16 @@ func c06Consumed(topo *CPUTopology, shadow map[int]*c06Shadow, num, den int64) m
 // c06ChargedOracle evaluates the clause; `what` names the step.  Returns false if it failed.
 func c06ChargedOracle(h *vHarness, rm *resourceManager, plugin *Plugin, tom TopologyOptionsManager, node *corev1.Node,
 	topo *CPUTopology, shadow map[int]*c06Shadow, capAmp map[int]int64, num, den int64, what string) bool {
+	// premise of the clause: NUMA-level accounting sees every pod, i.e. a pod holding CPUs of a NUMA node has recorded a cpu
+	// amount on that node (a cpu-bind pod allocated WITHOUT a NUMA hint records nothing; such histories are not judged)
+	for _, p := range shadow {
+		for _, c := range p.cpus {
+			if p.cells[topo.CPUDetails[c].NodeID*16] <= 0 {
+				h.Tag("amp:unhinted-bind-skip")
+				return true
+			}
+		}
+	}
 	cons := c06Consumed(topo, shadow, num, den)
 	var nds []int
 	for nd := range cons {
